@@ -569,6 +569,10 @@ class Generator(object):
             name = '{}{}'.format(location, canonical(member.name))
 
             if self.is_buffer_type(member):
+                if len(member.default) == 0:
+                    raise self.error(
+                        'Empty OCTET STRING DEFAULT is not supported.')
+
                 default_value = '{{' + ', '.join(['0x%02X' % m for m in member.default]) + '}};'
                 default_variable = self.add_unique_variable('static const uint8_t {}[] = ' + default_value,
                                                             canonical(member.name) + '_default')
